@@ -304,30 +304,17 @@ func checkC20(c *Ctx) {
 		c.Analysed(FuncName(f))
 		mhp := hopID("config", "", "MatchHostPattern")
 		merge := hopID("config", "HostConfigOptional", "MergeWith")
-		mf := ComputeMustFacts(f)
 		nMerge := 0
+		// path-based, helpers inlined: (a) the latest pattern test before a merge was found true and asked about
+		// the requested host; (b) between two merges the path re-enters the outermost loop around the merge site
+		// (one merge per host block)
+		mergeSites := map[ssa.Instruction]bool{}
 		for _, cs := range callSitesIn(f, false, merge) {
+			mergeSites[cs.(ssa.Instruction)] = true
 			nMerge++
-			// dominated by the true edge of a MatchHostPattern(pattern of the same block, inputHost) call
-			okv := false
-			for _, ms := range callSitesIn(f, false, mhp, globID) {
-				mc, ok := ms.(*ssa.Call)
-				if !ok {
-					continue
-				}
-				if v, known := mf.CondAt(cs, mc); known && v && dominatesInstr(mc, cs) {
-					a := mc.Call.Args
-					if len(a) >= 2 && paramIndex(f, a[1]) == 1 {
-						okv = true
-					}
-				}
-			}
-			c.Check(okv, "C20.R3", FuncName(f)+"#merge-iff-match", P.InstrPos(cs), "merge dominated by a true MatchHostPattern(pattern, inputHost)", "a host block is merged without one of its patterns having matched the requested host")
-			// once per block: the merge is followed by leaving the pattern loop (its block does not reach itself without passing the outer header)
-			blk := cs.Block()
-			okOnce := true
-			// find the innermost loop header containing blk
-			var inner *ssa.BasicBlock
+		}
+		outerHeader := func(blk *ssa.BasicBlock) *ssa.BasicBlock {
+			var outer *ssa.BasicBlock
 			for _, h := range f.Blocks {
 				isH := false
 				for _, pr := range h.Preds {
@@ -335,39 +322,66 @@ func checkC20(c *Ctx) {
 						isH = true
 					}
 				}
-				if isH && h.Dominates(blk) && (inner == nil || inner.Dominates(h)) {
-					// blk must be able to reach h's back edge to be in the loop
-					inner = h
+				if isH && h.Dominates(blk) && blockReaches(blk, h) && (outer == nil || h.Dominates(outer)) {
+					outer = h
 				}
 			}
-			if inner != nil {
-				// after the merge, can we come back to the merge block without going through a header that dominates 'inner' strictly?
-				seen := map[*ssa.BasicBlock]bool{}
-				stack := append([]*ssa.BasicBlock{}, blk.Succs...)
-				for len(stack) > 0 {
-					x := stack[len(stack)-1]
-					stack = stack[:len(stack)-1]
-					if seen[x] {
-						continue
-					}
-					seen[x] = true
-					if x == blk {
-						// reached again: acceptable only through the OUTER loop header
-						okOnce = false
-						break
-					}
-					// do not pass through outer headers (headers that strictly dominate inner)
-					isOuter := x != inner && x.Dominates(inner)
-					for _, pr := range x.Preds {
-						_ = pr
-					}
-					if isOuter {
-						continue
-					}
-					stack = append(stack, x.Succs...)
+			return outer
+		}
+		fsm := newFailSet()
+		seenMerge := 0
+		okWalk := walkAllOpts(c, "C20.R3", f, PathOpts{MaxVisits: 2, EmitTruncated: true}, func(p *Path) {
+			var lastMatch *ssa.Call
+			lastMatchAt := -1
+			lastMergeAt := -1
+			p.ForEach(func(i int, ins ssa.Instruction) bool {
+				call, ok := ins.(*ssa.Call)
+				if !ok {
+					return true
 				}
+				id := calleeID(call)
+				if id == mhp || id == globID {
+					lastMatch, lastMatchAt = call, i
+					return true
+				}
+				if !mergeSites[ins] {
+					return true
+				}
+				seenMerge++
+				okv := false
+				if lastMatch != nil {
+					if v, known := boolAfter(p, lastMatch, lastMatchAt); known && v {
+						a := lastMatch.Call.Args
+						if len(a) >= 2 && paramIndex(f, p.Resolve(a[1], lastMatchAt)) == 1 {
+							okv = true
+						}
+					}
+				}
+				if !okv {
+					fsm.add("merge-iff-match", "a host block is merged without one of its patterns having matched the requested host", ins, p)
+				}
+				if lastMergeAt >= 0 {
+					h := outerHeader(ins.Block())
+					passed := false
+					for j := lastMergeAt + 1; j <= i; j++ {
+						if h != nil && p.Blocks[j] == h && p.startsBlock(j) {
+							passed = true
+						}
+					}
+					if !passed {
+						fsm.add("merge-once", "a host block can be merged more than once for one request (no break after the first matching pattern)", ins, p)
+					}
+				}
+				lastMergeAt = i
+				return true
+			})
+		})
+		if okWalk {
+			if seenMerge == 0 && nMerge > 0 {
+				c.Undecided("C20.R3", FuncName(f)+"#merge-iff-match", "no MergeWith call on any enumerated path")
+			} else {
+				fsm.report(c, "C20.R3", FuncName(f), []string{"merge-iff-match", "merge-once"}, P.Pos(f.Pos()), "merge only after a true MatchHostPattern(pattern, inputHost); one merge per host block")
 			}
-			c.Check(okOnce, "C20.R3", FuncName(f)+"#merge-once", P.InstrPos(cs), "pattern loop left after the first match", "a host block can be merged more than once for one request (no break after the first matching pattern)")
 		}
 		c.Floor("C20.R3", "MergeWith sites in MatchHost", nMerge, 1)
 	}
